@@ -49,7 +49,7 @@ InjExpect(P, inj) ==
 
 \* top-level provider-set variables that are not well-formed by themselves (wire check must report them even when no injector uses them)
 InvalidSets(P) == {P.sets[j].pkg \o "." \o P.sets[j].name :
-                     j \in {x \in DOMAIN P.sets : ~(ItemsLeavesOK(P, P.sets[x].items) /\ LevelReasons(P, P.sets[x].items, <<>>) = {})}}
+                     j \in {x \in DOMAIN P.sets : ~InlineSet(P.sets[x]) /\ ~(ItemsLeavesOK(P, P.sets[x].items) /\ LevelReasons(P, P.sets[x].items, <<>>) = {})}}
 \* size of the provider graph: the analysis must be linear in it (C07), whatever the number of paths
 RECURSIVE GraphSize(_, _)
 GraphSize(P, items) ==
@@ -699,6 +699,21 @@ XProg(v) ==
          mk(<<XF("P1", <<"T2">>, "T1"), XF("P3", <<>>, "T3")>>, <<>>,
             <<[XInj("Inject", <<Par("p1", "T2")>>, "T1", <<ItL(1)>>, 1) EXCEPT !.form = IF v = "generic-injector" THEN "generic" ELSE "method"],
               XInj("InjectB", <<>>, "T3", <<ItL(2)>>, 1)>>)
+    [] v \in {"inline-set-partly-used", "inline-set-unused", "inline-set-in-named-set", "inline-set-conflict", "inline-set-twice"} ->
+         \* wire.NewSet(...) written in place: a member that contributes makes the item contribute; otherwise as a named set
+         LET inl(items) == [SetD("Inl", "a", items) EXCEPT !.grp = "=inline"] IN
+         mk(<<XF("P1", <<"T2">>, "T1"), XF("P2", <<>>, "T2"), XF("P3", <<>>, "T3"), XF("P2b", <<"T3">>, "T2")>>,
+            CASE v = "inline-set-partly-used" -> <<inl(<<ItL(2), ItL(3)>>)>>
+              [] v = "inline-set-unused" -> <<inl(<<ItL(3)>>)>>
+              [] v = "inline-set-in-named-set" -> <<inl(<<ItL(3)>>), SetD("SetA", "a", <<ItL(2), ItS(1)>>)>>
+              [] v = "inline-set-conflict" -> <<inl(<<ItL(4), ItL(3)>>)>>
+              [] v = "inline-set-twice" -> <<inl(<<ItL(2)>>), inl(<<ItL(3)>>)>>,
+            <<XInj("Inject", <<>>, "T1",
+                   CASE v = "inline-set-partly-used" -> <<ItL(1), ItS(1)>>
+                     [] v = "inline-set-unused" -> <<ItL(1), ItL(2), ItS(1)>>
+                     [] v = "inline-set-in-named-set" -> <<ItS(2), ItL(1)>>
+                     [] v = "inline-set-conflict" -> <<ItL(1), ItL(2), ItS(1)>>
+                     [] v = "inline-set-twice" -> <<ItS(1), ItL(1), ItS(2)>>, 1)>>)
     [] v = "same-set-twice-direct" ->          \* one set listed twice in the same call
          mk(<<XF("P2", <<>>, "T2"), XF("P1", <<"T2">>, "T1")>>, <<SetD("SetA", "a", <<ItL(1)>>)>>,
             <<XInj("Inject", <<>>, "T1", <<ItS(1), ItL(2), ItS(1)>>, 1)>>)
@@ -714,7 +729,8 @@ XVariants == {"star-foreign-tag-missing", "star-foreign-tag-ok", "two-files-firs
               "value-does-not-satisfy-pointer", "multi-name-var-sets-missing", "two-fieldsof-second-unused", "missing-under-fieldsof-parent",
               "set-used-by-first-injector-only", "struct-fields-from-params-crossed", "inaccessible-value", "inaccessible-value-full-sig",
               "foreign-struct-star-full-sig", "unnamed-params-same-type-name", "set-through-plain-alias-package",
-              "generic-injector", "method-injector"}
+              "generic-injector", "method-injector",
+              "inline-set-partly-used", "inline-set-unused", "inline-set-in-named-set", "inline-set-conflict", "inline-set-twice"}
 FamilyX(p, vs) == \E v \in vs : p = XProg(v)
 
 (* ======================================================================== *)
